@@ -95,6 +95,10 @@ impl<'a> Lib<'a> {
             if c == "pk" {
                 // the library's own encoding of the library's own public key
                 out.extend_from_slice(&Vec::<u8>::from(&self.sk::<C>(geti(ch, "k")).public_key()));
+            } else if let Some(name) = c.strip_prefix("dst:") {
+                // a message that is byte for byte one of the library's own domain separation tags
+                let group = if enc_k::<C>(&<C as Pairing>::PublicKey::generator()).len() == 96 { "G1" } else { "G2" };
+                out.extend_from_slice(&self.tables.tag(group, name));
             } else {
                 out.extend_from_slice(&self.conc.atom(c));
             }
